@@ -246,6 +246,7 @@ def run_case(case):
     return {'fails': vu.classify(case, fails, _core), 'n': 1, 'nontrivial': bool(np.any(A != 0))}
 
 
+run_case = vu.history_guard(run_case)
 SCOPES = {'transform': run_case, 'norm-pa-rank': run_case, 'elementwise-axes': run_case, 'normalize-table': run_case}
 
 
@@ -273,7 +274,7 @@ def _states(tier):
         for st in vu.rep_states(dm):
             yield st, 'count'
     for k, dm in enumerate(rt.matrices(0, 0, values=(0, 1, 2, 5), shapes=[(2, 3), (3, 2)])):
-        if k % (97 if q else 7) == 0:
+        if k % (97 if q else 17) == 0:
             for st in vu.rep_states(dm):
                 yield st, 'count'
     for dm in rt.stress_matrices():
@@ -291,7 +292,7 @@ def _states(tier):
             for lay, z in (('csr', 'z1'), ('csr_unsorted', 'zall'), ('csc', 'nz')):
                 yield dict(A=dm.tolist(), layout=lay, zeros=z, hist=list(hist), obs_md='text', samp_md='num'), 'count'
     if not q:
-        for dm in vu.random_tables(1234, 150):
+        for dm in vu.random_tables(1234, 60):
             for st in vu.rep_states(dm):
                 yield st, 'count'
 
@@ -345,7 +346,7 @@ def run(rep):
         states = ('every matrix over {0,1,2} up to 2x2 + %s of 2x3/3x2%s + 7 non-square asymmetric tables + sampled '
                   '2x3/3x2 over {0,1,2,5}, each x every layout (csr, csr-unsorted, csc) x stored zeros (none/one/all); '
                   'value-stress matrices; 8 ID-alphabet/metadata-kind combinations; 9 operation histories%s'
-                  % ('every 11th' if q else 'all', '' if q else ' + every 13th 3x3', '' if q else '; 150 random tables up to 6x6'))
+                  % ('every 11th' if q else 'all', '' if q else ' + every 29th 3x3', '' if q else '; 60 random tables up to 6x6'))
         rt.run_scope(rep, 'transform', states + ' x axis x inplace x 11 functions (6 element-wise incl. zeroing and '
                      'shifting ones, 3 vector-wise, 2 using ID/metadata): call log, zero cells, values, density',
                      transform_cases(rep.tier), run_case, exhaustive=True)
